@@ -28,7 +28,7 @@ LEVEL_TEXT = (
 )
 TECHNIQUE = "Lean 4 proof (state-machine invariant over all operation histories, regenerated discipline) + differential histories"
 GEN = ["angular_cache"]
-LEAN_MODULES = ["GridVerif.Props.C19", "GridVerif.Props.C19.State", "GridVerif.Props.C19.BReject"]
+LEAN_MODULES = ["GridVerif.Props.C19", "GridVerif.Props.C19.State", "GridVerif.Props.C19.BReject", "GridVerif.Props.C19.T1D"]
 THEOREMS = [
     "GridVerif.C19.safe_init",
     "GridVerif.C19.step_safe",
@@ -68,6 +68,12 @@ THEOREMS = [
     "GridVerif.C19.b_history_ignores_rejected_calls",
     "GridVerif.C19.b_history_after_rejection_at",
     "GridVerif.C19.b_partial_no_rejection",
+    # transform_1d_grid and the other entry points: regenerated order of guards and state-fixing calls
+    "GridVerif.C19.t1d_guards_precede_state",
+    "GridVerif.C19.t1d_accepted_is_method_call",
+    "GridVerif.C19.t1d_rejected_leaves_no_trace",
+    "GridVerif.C19.t1d_guard_after_state_fails_at",
+    "GridVerif.C19.b_history_any_entry_point",
 ]
 RULE = (
     "histories of 3..14 operations on one process state: AngularGrid(degree, method, cache on/off) over 4 methods x a "
@@ -255,6 +261,7 @@ def corr(ctx: Ctx):
             ctx.fail("corr", "angular.AngularGrid:cache-protocol", why, witness={"history": [list(o) for o in ops]})
     _b_corr(ctx)
     _b_reject_corr(ctx)
+    _b_entry_corr(ctx)
     _coulomb_corr(ctx, facts)
     _state_corr(ctx)
     _memo_corr(ctx)
@@ -1461,6 +1468,8 @@ def _oracle_round3(ctx: Ctx, budget: str):
     guarded("becke.BeckeWeights:radii", _o_becke, reps)
     guarded("rtransform.b:objects", _o_b_objects, rt, reps)
     guarded("rtransform.b:rejected-call", _o_b_rejected, rt, reps)
+    guarded("rtransform.b:call-that-raises", _o_b_exceptions, rt, reps)
+    guarded("rejected-request", _o_exceptions_other_state, reps)
     guarded("atomgrid.AtomGrid.basis:memo", _o_basis, reps)
     guarded("molgrid.MolGrid:atgrids", _o_molgrid_stored, reps)
     guarded("basegrid.get_localgrid:kdtree", _o_kdtree, reps)
@@ -1470,7 +1479,8 @@ def _oracle_round3(ctx: Ctx, budget: str):
     ctx.extra["observed_aliasing (true = present in this tree; outside the property, information only)"] = obs
     for k, v in obs.items():
         if v:
-            ctx.info(f"observed (outside the property, information only): {k}")
+            ctx.info((f"observed, not asserted (candidate, for the lead to judge): {k}" if "list argument" in k
+                      else f"observed (outside the property, information only): {k}"))
 
 
 def oracle_at(ctx: Ctx, failure):
@@ -1678,3 +1688,304 @@ def _pristine_compare(ctx: Ctx, procs, budget="small"):
                          f"(this process {got.get(name)}, fresh process {ref[name]}): the result depends on what happened before in the process",
                          witness={"family": fam, "observation": name},
                          snippet=SNIP_PROCESS % (str(__import__('pathlib').Path(__file__).resolve().parents[2]), fam, ctx.seed, ctx.tier, budget))
+
+
+# ------------------------------------------------------------------------------------------
+# Calls that end in an exception (round 3, after a seeded change that moved the domain guard of
+# transform_1d_grid behind the calls that fix the scale): a call that raises leaves every remembered
+# parameter / memo / cache of the object and of the module as it was.
+# ------------------------------------------------------------------------------------------
+def _one_d(points, domain=(0.0, np.inf)):
+    bg = importlib.import_module("grid.basegrid")
+    points = np.asarray(points, dtype=float)
+    return bg.OneDGrid(points, np.ones(len(points)) / len(points), domain)
+
+
+def _b_entry_call(ctx: Ctx, cls):
+    """One call of a public entry point of a b-scaled transform.
+    -> (description for replay, callable(tf), guards-accept flag for the model, maximum the call would see)"""
+    one = importlib.import_module("grid.onedgrid")
+    r = ctx.rng.random()
+    if r < 0.35:
+        mx = ctx.rng.choice(TINY) if ctx.rng.random() < 0.5 else float(ctx.rng.randrange(1, 9))
+        n = ctx.rng.randrange(1, 5)
+        x = np.array([mx - k for k in range(n)])
+        ctx.np_rng.shuffle(x)
+        meth = ctx.rng.choice([m for m in B_METHODS[cls] if m != "inverse"])
+        return (f"tf.{meth}(np.array({x.tolist()!r}))", lambda tf: getattr(tf, meth)(x), True, float(np.max(x)))
+    if r < 0.6:                       # transform_1d_grid on a grid its guards accept
+        if ctx.rng.random() < 0.5:
+            n = ctx.rng.randrange(2, 9)
+            return (f"tf.transform_1d_grid(UniformInteger({n}))", lambda tf: tf.transform_1d_grid(one.UniformInteger(n)), True, float(n - 1))
+        mx = ctx.rng.choice([0.0, 1e-17, 0.99e-16, 2.5, 6.0])
+        pts = np.array([mx * k / 3.0 for k in range(4)])
+        pts[-1] = mx
+        return (f"tf.transform_1d_grid(OneDGrid(np.array({pts.tolist()!r}), np.ones(4) / 4, (0.0, np.inf)))",
+                lambda tf: tf.transform_1d_grid(_one_d(pts)), True, float(np.max(pts)))
+    # transform_1d_grid on something its guards refuse
+    k = ctx.rng.randrange(5)
+    if k == 0:
+        n = ctx.rng.randrange(2, 7)
+        g = one.GaussLegendre(n)
+        return (f"tf.transform_1d_grid(GaussLegendre({n}))", lambda tf: tf.transform_1d_grid(g), False, float(np.max(g.points)))
+    if k == 1:
+        pts = np.array([-0.4, 0.5, float(ctx.rng.randrange(1, 4))])
+        return (f"tf.transform_1d_grid(OneDGrid(np.array({pts.tolist()!r}), np.ones(3) / 3, (-0.5, 3.5)))",
+                lambda tf: tf.transform_1d_grid(_one_d(pts, (-0.5, 3.5))), False, float(np.max(pts)))
+    if k == 2:
+        pts = np.array([0.5, 1.5, float(ctx.rng.randrange(2, 6))])
+        return (f"tf.transform_1d_grid(OneDGrid(np.array({pts.tolist()!r}), np.ones(3) / 3, None))",
+                lambda tf: tf.transform_1d_grid(_one_d(pts, None)), False, float(np.max(pts)))
+    if k == 3:
+        arr = np.arange(float(ctx.rng.randrange(2, 6)))
+        return (f"tf.transform_1d_grid(np.array({arr.tolist()!r}))", lambda tf: tf.transform_1d_grid(arr), False, float(np.max(arr)))
+    n = ctx.rng.randrange(2, 6)
+    g = one.GaussChebyshev(n)
+    return (f"tf.transform_1d_grid(GaussChebyshev({n}))", lambda tf: tf.transform_1d_grid(g), False, float(np.max(g.points)))
+
+
+def _b_entry_corr(ctx: Ctx):
+    """Histories over all entry points (methods and transform_1d_grid, accepted / refused by the guards / rejected for a zero
+    maximum): which calls raise and what the object remembers after each, against `t1dStep` with the regenerated statement
+    order of transform_1d_grid and the regenerated `setMaxBChecked_*`."""
+    rt = importlib.import_module("grid.rtransform")
+    for _ in range(ctx.n(40, 800)):
+        cls = ctx.rng.choice(list(B_CLASSES))
+        b0 = None if ctx.rng.random() < 0.8 else float(ctx.rng.choice([3.0, 7.0]))
+        tf = B_CLASSES[cls](rt, b0)
+        descr, toks, impl = [], [], []
+        for _ in range(ctx.rng.randrange(1, 6)):
+            d, call, ok, mx = _b_entry_call(ctx, cls)
+            raised = False
+            try:
+                with np.errstate(all="ignore"):
+                    call(tf)
+            except Exception:   # noqa: BLE001 - any exception ends the call
+                raised = True
+            descr.append(d)
+            toks += ["1" if ok else "0", f2b(mx)]
+            impl.append((None if tf.b is None else float(tf.b), raised))
+        ans = driver_batch([f"C19.bcalls {cls} {'none' if b0 is None else f2b(b0)} " + " ".join(toks)])[0].split()[1:]
+        model = [(None if ans[2 * i] == "none" else b2f(ans[2 * i]), ans[2 * i + 1] == "1") for i in range(len(descr))]
+        ctx.count(["b-entry-history", cls, b0, descr], nontrivial=any(r for _, r in impl) and not all(r for _, r in impl),
+                  tag=f"b-entry:{cls}")
+        ctx.traces += 1
+        same = all((a[1] == b[1]) and ((a[0] is None) == (b[0] is None)) and (a[0] is None or f2b(a[0]) == f2b(b[0])) for a, b in zip(impl, model))
+        if not same:
+            ctx.fail("corr", f"rtransform.{cls}.b:entry-points", f"(remembered scale, raised) after each call: implementation {impl}, model {model}",
+                     witness={"class": cls, "b": b0, "calls": descr})
+
+
+SNIP_HEAD = ("import warnings; warnings.filterwarnings('ignore')\nimport numpy as np\nfrom grid import rtransform as rt\n"
+             "from grid.basegrid import OneDGrid\nfrom grid.onedgrid import GaussLegendre, GaussChebyshev, UniformInteger\n")
+
+
+def _o_b_exceptions(ctx: Ctx, rt, reps=6):
+    """Any public entry point of a b-scaled transform that ends in an exception, then an accepted call: the accepted call
+    (transform_1d_grid of UniformInteger(N) or a method on arange(N)) must give what a new object gives."""
+    one = importlib.import_module("grid.onedgrid")
+    obs = {}
+    for k in range(4 * reps):
+        cls = ctx.rng.choice(list(B_CLASSES))
+        tf, new = B_CLASSES[cls](rt, None), B_CLASSES[cls](rt, None)
+        descr, n_raised = [], 0
+        for _ in range(ctx.rng.randrange(1, 4)):
+            # calls chosen to raise: refused / rejected grids, bad arguments
+            r = ctx.rng.random()
+            if r < 0.6:
+                d, call, ok, mx = _b_entry_call(ctx, cls)
+                if ok and not (abs(mx) < 1e-16):
+                    continue                      # would be accepted: not part of this clause
+            else:
+                arg, txt = ctx.rng.choice([(None, "None"), ("abc", "'abc'"), (np.array([]), "np.array([])"), (np.zeros(3), "np.zeros(3)"),
+                                           (np.zeros((2, 2)), "np.zeros((2, 2))")])
+                meth = ctx.rng.choice(B_METHODS[cls] + ["transform_1d_grid", "set_maximum_parameter_b"])
+                d, call = f"tf.{meth}({txt})", (lambda tf, meth=meth, arg=arg: getattr(tf, meth)(arg))
+            try:
+                with np.errstate(all="ignore"):
+                    call(tf)
+                descr.append(d + "   # accepted")
+            except Exception:   # noqa: BLE001
+                n_raised += 1
+                descr.append(d)
+        if n_raised == 0 or any(d.endswith("# accepted") for d in descr):
+            continue
+        n = ctx.rng.randrange(4, 12)
+        final = ctx.rng.choice(["transform_1d_grid", "transform", "deriv"])
+        ctx.count(["oracle-b-exceptions", cls, descr, final, n], nontrivial=True, tag="oracle:b-exceptions")
+        with np.errstate(all="ignore"):
+            if final == "transform_1d_grid":
+                a, b = tf.transform_1d_grid(one.UniformInteger(n)), new.transform_1d_grid(one.UniformInteger(n))
+                same = np.array_equal(a.points, b.points, equal_nan=True) and np.array_equal(a.weights, b.weights, equal_nan=True)
+                got, want = a.points, b.points
+                ftxt = f"tf.transform_1d_grid(UniformInteger({n})).points, new.transform_1d_grid(UniformInteger({n})).points"
+            else:
+                got, want = getattr(tf, final)(np.arange(float(n))), getattr(new, final)(np.arange(float(n)))
+                same = np.array_equal(got, want, equal_nan=True)
+                ftxt = f"tf.{final}(np.arange({n}.0)), new.{final}(np.arange({n}.0))"
+        if not (same and tf.b == new.b):
+            lines = [SNIP_HEAD + f"tf, new = rt.{cls}(0.1, 12.0), rt.{cls}(0.1, 12.0)"]
+            for d in descr:
+                lines.append(f"try:\n    {d}\nexcept Exception:\n    pass")
+            lines.append(f"a, b = {ftxt}")
+            lines.append("assert np.array_equal(a, b, equal_nan=True) and tf.b == new.b, f'a call that raised left its scale behind: b = {tf.b}, a new object has {new.b}'")
+            ctx.fail("oracle", "rtransform.b:call-that-raises",
+                     f"{cls}(0.1, 12.0): after {descr} (all raised) the object has b = {tf.b} where a new object gets {new.b}; {final} on {n} points gives "
+                     f"{np.asarray(got)[:4].tolist()}… instead of {np.asarray(want)[:4].tolist()}…",
+                     witness={"class": cls, "calls_that_raised": descr, "then": final, "n": n}, snippet="\n".join(lines) + "\n")
+    # information (see the report): a Python list / tuple argument raises TypeError *after* the scale was taken from it
+    for cls in B_CLASSES:
+        tf = B_CLASSES[cls](rt, None)
+        try:
+            tf.transform([0.0, 1.0, 2.0])
+            lst = None
+        except Exception as e:   # noqa: BLE001
+            lst = type(e).__name__
+        obs[f"{cls}: transform([0., 1., 2.]) raises {lst} and leaves b = {tf.b} (list argument, documented type is ndarray)"] = lst is not None and tf.b is not None
+    return obs
+
+
+def _dict_state(d):
+    return {k: tuple(id(x) for x in v) if isinstance(v, tuple) else id(v) for k, v in d.items()}
+
+
+def _o_exceptions_other_state(ctx: Ctx, reps=6):
+    """A rejected request leaves the caches / memos as they were: angular caches, the Coulomb table, kd-trees, the basis memo,
+    Becke / Hirshfeld objects.  After the rejected call the stored objects are the same objects with the same content and the
+    next accepted call gives the reference value."""
+    ang = importlib.import_module("grid.angular")
+    cou = importlib.import_module("grid.coulomb")
+    bg = importlib.import_module("grid.basegrid")
+    pg = importlib.import_module("grid.periodicgrid")
+    atg = importlib.import_module("grid.atomgrid")
+    rt = importlib.import_module("grid.rtransform")
+    one = importlib.import_module("grid.onedgrid")
+    import json
+
+    def raised(f):
+        try:
+            f()
+            return False
+        except Exception:   # noqa: BLE001
+            return True
+    # -- angular caches
+    bad_requests = [("degree=10**6", dict(degree=10 ** 6)), ("degree=-1", dict(degree=-1)), ("degree=3.5", dict(degree=3.5)),
+                    ("degree='3'", dict(degree="3")), ("size=10**7", dict(size=10 ** 7)), ("size=-3", dict(degree=None, size=-3)),
+                    ("method='foo'", dict(degree=3, method="foo")), ("method=None", dict(degree=3, method=None))]
+    for m in METHODS:
+        for filled in (False, True):
+            _clear(ang)
+            d = _degree_pool(ang, m)[0]
+            if filled:
+                ang.AngularGrid(degree=d, method=m)
+            before = {mm: _dict_state(getattr(ang, CACHES[mm])) for mm in METHODS}
+            txt, kw = ctx.rng.choice(bad_requests)
+            kw = dict(kw)
+            kw.setdefault("method", m)
+            kw["cache"] = ctx.rng.random() < 0.7
+            r = raised(lambda: ang.AngularGrid(**kw))
+            after = {mm: _dict_state(getattr(ang, CACHES[mm])) for mm in METHODS}
+            g = ang.AngularGrid(degree=d, method=m)
+            deg, sp, sw = _shipped(ang, m, d)
+            ctx.count(["oracle-exc-angular", m, filled, txt], nontrivial=True, tag="oracle:exceptions:angular")
+            if not r:
+                continue
+            if before != after or not (np.array_equal(g.points, sp) and np.array_equal(g.weights, sw)):
+                ctx.fail("oracle", "angular.AngularGrid:cache:rejected-request",
+                         f"AngularGrid({txt}, method={kw['method']!r}, cache={kw['cache']}) raised, but the cache dictionaries changed "
+                         f"or the next AngularGrid(degree={d}, method={m!r}) differs from the shipped data",
+                         witness={"method": m, "request": txt, "cache_filled_before": filled},
+                         snippet=("import warnings; warnings.filterwarnings('ignore')\nimport numpy as np\nfrom grid import angular as ang\nfrom grid.angular import AngularGrid\n"
+                                  "names = ('LEBEDEV_CACHE','SPHERICAL_CACHE','MAX_DET_CACHE','AHRENS_BEYLKIN_CACHE')\nfor c in names: getattr(ang, c).clear()\n"
+                                  f"ref = AngularGrid(degree={d}, method={m!r}, cache=False)\n" + (f"AngularGrid(degree={d}, method={m!r})\n" if filled else "")
+                                  + "before = {c: sorted(getattr(ang, c)) for c in names}\n"
+                                  + f"try:\n    AngularGrid(**{kw!r})\nexcept Exception:\n    pass\n"
+                                  + "assert before == {c: sorted(getattr(ang, c)) for c in names}, 'a rejected request changed the caches'\n"
+                                  + f"g = AngularGrid(degree={d}, method={m!r})\nassert np.array_equal(g.points, ref.points) and np.array_equal(g.weights, ref.weights)\n"))
+    _clear(ang)
+    # -- Coulomb table
+    rawj = json.loads((SRC / "data" / "atomic_gauss_params.json").read_text())
+    utils = importlib.import_module("grid.utils")
+    missing = [s for _, s in sorted(utils.num2sym.items()) if s not in rawj]
+    bad_loads = ["Xx", 0, 200, 3.5, None, "", -1] + missing[:2]
+    for loaded in (False, True):
+        for bad in ctx.rng.sample(bad_loads, 4):
+            if hasattr(cou, "_ATOMIC_GAUSS_PARAMS_CACHE"):
+                cou._ATOMIC_GAUSS_PARAMS_CACHE = None
+            if loaded:
+                cou.load_atomic_gaussian_params("H")
+            table = getattr(cou, "_ATOMIC_GAUSS_PARAMS_CACHE", None)
+            r = raised(lambda: cou.load_atomic_gaussian_params(bad))
+            table2 = getattr(cou, "_ATOMIC_GAUSS_PARAMS_CACHE", None)
+            ctx.count(["oracle-exc-coulomb", loaded, repr(bad)], nontrivial=True, tag="oracle:exceptions:coulomb")
+            if not r:
+                continue
+            ok = (table2 is table) if loaded else (table2 is None or _deep_equal(table2, rawj))
+            try:
+                c, a = cou.load_atomic_gaussian_params(6)
+                ok = ok and np.array_equal(c, np.asarray(rawj["C"]["coeffs_s"], float)) and np.array_equal(a, np.asarray(rawj["C"]["alphas_s"], float))
+            except Exception:   # noqa: BLE001
+                ok = False
+            if not ok:
+                ctx.fail("oracle", "coulomb.load_atomic_gaussian_params:rejected-request",
+                         f"load_atomic_gaussian_params({bad!r}) raised ({'table loaded before' if loaded else 'table not loaded yet'}); afterwards the table is another object / the parameters of carbon differ from the file",
+                         witness={"element": repr(bad), "loaded_before": loaded},
+                         snippet=("import json, numpy as np\nimport grid.coulomb as cou\nfrom importlib.resources import files\n"
+                                  "raw = json.loads(files('grid.data').joinpath('atomic_gauss_params.json').read_text())\ncou._ATOMIC_GAUSS_PARAMS_CACHE = None\n"
+                                  + ("cou.load_atomic_gaussian_params('H')\n" if loaded else "")
+                                  + f"try:\n    cou.load_atomic_gaussian_params({bad!r})\nexcept Exception:\n    pass\n"
+                                  "c, a = cou.load_atomic_gaussian_params(6)\nassert np.array_equal(c, np.asarray(raw['C']['coeffs_s'], float)) and np.array_equal(a, np.asarray(raw['C']['alphas_s'], float))\n"))
+    # -- kd-trees
+    for k in range(reps):
+        name, make, dim = ctx.rng.choice(_grid_factories(ctx))
+        n = ctx.rng.choice([5, 40])
+        p0, w = _kd_points(ctx, n, dim), np.ones(n)
+        g = make(p0.copy(), w.copy())
+        c = np.zeros(dim) if dim > 1 else np.array(0.0)
+        built = ctx.rng.random() < 0.5
+        if built:
+            g.get_localgrid(c, 0.8)
+        tree = getattr(g, "_kdtree", None)
+        bad = ctx.rng.randrange(4)
+        if bad == 0:
+            r = raised(lambda: g.get_localgrid(np.zeros(dim + 1), 0.8))
+        elif bad == 1:
+            r = raised(lambda: g.get_localgrid(c, -1.0))
+        elif bad == 2:
+            r = raised(lambda: g.get_localgrid(c, np.nan))
+        else:
+            r = raised(lambda: setattr(g, "points", np.zeros((n + 1, dim)) if dim > 1 else np.zeros(n + 1)))
+        ctx.count(["oracle-exc-kdtree", name, n, built, bad], nontrivial=True, tag="oracle:exceptions:kdtree")
+        if not r:
+            continue
+        ok = getattr(g, "_kdtree", None) is tree and np.array_equal(g.points, p0) and \
+            _same_local(g.get_localgrid(c, 0.8), make(p0.copy(), w.copy()).get_localgrid(c, 0.8))
+        if not ok:
+            ctx.fail("oracle", f"basegrid.get_localgrid:kdtree:rejected-request:{name.split(':')[0]}",
+                     f"{name} with {n} points (tree built before: {built}): a rejected request (kind {bad}: 0 wrong centre shape, 1 negative radius, 2 nan radius, 3 points of another shape) "
+                     f"changed the tree / the points, or the next get_localgrid differs from a new grid's",
+                     witness={"class": name, "n": n, "built": built, "kind": bad})
+    # -- basis memo, Becke, Hirshfeld
+    rg = rt.BeckeRTransform(0.0, 1.5).transform_1d_grid(one.GaussLegendre(5))
+    a = atg.AtomGrid(rg, degrees=[5])
+    f = np.exp(-np.sum(a.points ** 2, axis=1))
+    r = raised(lambda: a.radial_component_splines(f[:-1])) and raised(lambda: a.interpolate(np.ones(3)))
+    ctx.count(["oracle-exc-basis"], nontrivial=True, tag="oracle:exceptions:basis")
+    if r and not (a.basis is None and np.array_equal(_spline_values(a.radial_component_splines(f)),
+                                                      _spline_values(atg.AtomGrid(rg, degrees=[5]).radial_component_splines(f)))):
+        ctx.fail("oracle", "atomgrid.AtomGrid.basis:rejected-request", "AtomGrid: radial_component_splines with an array of the wrong size raised but filled the basis memo / changed the next decomposition",
+                 witness={"degree": 5})
+    bk = importlib.import_module("grid.becke")
+    hw = importlib.import_module("grid.hirshfeld")
+    pts = ctx.np_rng.uniform(-2.0, 2.0, (10, 3))
+    atc = np.array([[0.0, 0.0, -0.7], [0.0, 0.0, 0.7]])
+    ind = np.array([0, 5, 10])
+    for nm, new in (("BeckeWeights", lambda: bk.BeckeWeights(order=3)), ("HirshfeldWeights", lambda: hw.HirshfeldWeights())):
+        o = new()
+        want = new()(pts, atc, np.array([1, 8]), ind)
+        r1 = raised(lambda: o(pts, atc, np.array([1.0, 8.0]), ind)) if nm == "HirshfeldWeights" else raised(lambda: o(pts, atc, np.array([1, 200]), ind))
+        r2 = raised(lambda: o(pts, atc[:1], np.array([1, 8]), ind))
+        ctx.count(["oracle-exc-" + nm, r1, r2], nontrivial=True, tag="oracle:exceptions:aim")
+        if (r1 or r2) and not np.array_equal(o(pts, atc, np.array([1, 8]), ind), want):
+            ctx.fail("oracle", f"{nm}:rejected-request", f"{nm}: the weights of H-O after a rejected call on the same object differ from a new object's",
+                     witness={"rejected": [bool(r1), bool(r2)]})
